@@ -550,25 +550,28 @@ PROPS = {
     "C03": {
         "module": "DnsModel.Theorems.C03",
         "theorems": ["Dns.C03.accepted_layout", "Dns.C03.walks_faithful", "Dns.C03.no_opt_outside_additional", "Dns.C03.question_walk",
-                     "Dns.C03.accessors", "Dns.C03.ip_accessor", "Dns.C03.data_accessor"],
+                     "Dns.C03.accessors", "Dns.C03.ip_accessor", "Dns.C03.data_accessor", "Dns.C03.layout_full",
+                     "Dns.C03.edns_walk", "Dns.C03.current_section"],
         "families": [{"name": "iter-boundary", "quick": 0, "thorough": 0, "fixed": True}, {"name": "iter", "quick": 3000, "thorough": 150000}],
         "oracle": oracle_c03,
         "nontrivial": nontrivial_accepted,
         "rule": "accepted packets from the structured stream (all record shapes, 4 layouts incl. chained pointers and pointers into rdata names, OPT absent/first/middle/last); "
                 "each case runs the six walks and every accessor on every record; non-trivial = distinct accepted packets",
-        "level": "other",
-        "explanation": "",
-        "assumptions": [],
+        "level": "proof",
+        "explanation": "theorems: on every packet the model's parse accepts, the question / answer / authority / additional walks (OPT skipped and included) and the EDNS option walk yield exactly the records / options the declarative policy places in the bytes, in wire order; every accessor returns the value at the record's positions; the section accessor reports the record's section; none panics. "
+                       "correspondence: real walks and accessors agree with the model and with the Python RFC 1035 reference decoder on every generated accepted packet",
+        "assumptions": ["accessors are pure functions of the bytes in the model; that the real accessors do not write is observed by comparing the packet bytes before and after every case, not proved of the Rust code"],
     },
     "C04": {
         "module": "DnsModel.Theorems.C04",
-        "theorems": [],
+        "theorems": ["Dns.C04.header_summary", "Dns.C04.question_summary", "Dns.C04.edns_summary"],
         "families": [{"name": "summary-boundary", "quick": 0, "thorough": 0, "fixed": True}, {"name": "summary", "quick": 3000, "thorough": 100000}],
         "oracle": oracle_c04,
         "nontrivial": nontrivial_accepted,
         "rule": "accepted packets with random flag words, OPT present/absent with random version/flags/rcode/payload, question names through pointers incl. into the header; every getter, question getters twice (cold/warm cache)",
-        "level": "other",
-        "explanation": "",
+        "level": "proof",
+        "explanation": "theorems: for every accepted packet the id, opcode, rcode, QR, every bit of the 32-bit flag word, the DNSSEC indicator, the three question forms with type and class (cold and warm cache) and the six EDNS summary fields equal the values read off the bytes at the positions the declarative policy assigns (defaults without OPT); "
+                       "correspondence: real getters agree with the model and with an independent div/mod decoding on every generated accepted packet",
         "assumptions": [],
     },
     "C05": {
@@ -713,10 +716,10 @@ MANIFEST_TEXT = {
             "technique": "Lean 4 proof (induction on fuel, cursor invariant) + model/implementation correspondence"},
     "C02": {"text": "Lean theorem for all byte strings: the model's parse succeeds if and only if the declarative policy WF holds (names by inductive relations with the strictly-backward / 16-pointer / no-root-target discipline, label and name limits, forbidden characters; pointer-free DNAME targets; per-type rdata shapes; root-named single OPT in the additional section with options tiling its data; QR gating; one IN question; nothing left over) - both directions, by induction on fuel / on derivations. Verdicts of the real parser are compared in both directions with the model and with an independent executable statement of the policy (Python recogniser) on structured, single-point-damaged, boundary (incl. re-entering names, pointer ladders) and arbitrary packets.",
             "note": NOTE, "technique": "Lean 4 proof of the name-walker iff + correspondence + independent recogniser"},
-    "C03": {"text": "Proved for every accepted packet (via the C02 equivalence and the decoding lemmas copyUncompressedName_valid / rawNameToStr_valid / skipName_valid): the question walk yields exactly the question; the answer, authority and additional walks yield exactly the records of the policy relation in wire order, with OPT included and with OPT skipped wherever it sits; on each record the owner name (wire and lowercase dotted form), type, class, TTL, data length, raw data and address accessors return the values at the record's positions and never panic. Not proved: the EDNS option walk and the section-of-record accessor (correspondence only), hence 'other'. Model of the four iterators and all accessors; on every generated accepted packet the real walks/accessors, the model's and the reference decoder's RFC 1035 reading agree (OPT absent/first/middle/last, chained pointers, pointers into rdata)." + PENDING,
-            "note": NOTE, "technique": "model/implementation correspondence + reference decoder oracle"},
-    "C04": {"text": "Model of every header/question/EDNS getter (with the question cache); real getters compared with the model and with values decoded independently from the bytes by div/mod." + PENDING,
-            "note": NOTE, "technique": "model/implementation correspondence + reference decoder oracle"},
+    "C03": {"text": "Proved for every accepted packet (via the C02 equivalence and the decoding lemmas copyUncompressedName_valid / rawNameToStr_valid / skipName_valid): the question walk yields exactly the question; the answer, authority and additional walks yield exactly the records of the policy relation in wire order, with OPT included and with OPT skipped wherever it sits; on each record the owner name (wire and lowercase dotted form), type, class, TTL, data length, raw data and address accessors return the values at the record's positions and never panic; the EDNS option walk yields exactly the options tiling the OPT data (nothing without OPT); the section accessor reports the record's section. Model of the four iterators and all accessors; on every generated accepted packet the real walks/accessors, the model's and the reference decoder's RFC 1035 reading agree (OPT absent/first/middle/last, chained pointers, pointers into rdata).",
+            "note": NOTE, "technique": "Lean 4 proof (walk/decoding lemmas over the policy derivation) + model/implementation correspondence + reference decoder oracle"},
+    "C04": {"text": "Lean theorems for every accepted packet: transaction id, opcode, rcode, response bit, each bit of the 32-bit flag word (opcode/rcode masked, EDNS flags in the upper half), DNSSEC indicator (AD for responses, DO for queries), question in raw / raw-without-root / lowercase-text form with type and class (cache empty and filled), and EDNS start, option count, extended rcode, version, flags and payload size equal the values at the positions the declarative policy assigns - those of the single OPT record, or none/0/512 without one. Real getters compared with the model and with values decoded independently from the bytes by div/mod.",
+            "note": NOTE, "technique": "Lean 4 proof (EDNS state tracking through the validator, bit lemmas, decoding lemmas) + model/implementation correspondence + div/mod oracle"},
     "C05": {"text": "Model of uncompress_with_previous_offset; on every generated accepted packet and record boundary the real output equals the model's, is the canonical pointer-free encoding of the decoded message, is accepted, is a fixed point, and carries the boundary across." + PENDING,
             "note": NOTE, "technique": "model/implementation correspondence + reference decoder oracle"},
     "C06": {"text": "Model of compress() with the 32-entry suffix dictionary (depth-tracked); real output byte-identical to the model's on random messages and on the dictionary families (31..70 suffixes, 126..255-byte suffixes, nesting to 40, offsets beyond 16383, mixed case, OPT anywhere); oracle checks acceptance, no growth, message equality up to case, question bytes. Emission lemmas (NameAt.mono/append/emit_ptr) are proved." + PENDING,
